@@ -137,11 +137,13 @@ func (p *Parser) ReadPeek() {
 			// Skip Fastly pgrama embedded data
 			for {
 				t = p.tk.NextToken()
-				if t.Type == token.SEMICOLON {
+				if t.Type == token.SEMICOLON || t.Type == token.EOF {
 					break
 				}
 			}
-			continue
+			if t.Type != token.EOF {
+				continue
+			}
 		}
 		meta := ast.New(t, p.level, leading)
 		meta.PreviousEmptyLines = previousEmptyLines
